@@ -8,7 +8,7 @@ CONSTANTS
   MReqs = {1}
   MaxConn = 3
   Mode = "dgst"
-  MaxOps = 10
+  MaxOps = 9
   PathMode = TRUE
 SPECIFICATION CSpec
 VIEW CView
